@@ -234,9 +234,14 @@ class TableKeyParameter(Parameter):
     @override
     def _decode_positioned_from_pdu(self, decode_state: DecodeState) -> ParameterValue:
         if self.table_row is not None:
-            # the table row to be used is statically specified -> no
-            # need to decode anything!
+            # the table row to be used is statically specified. the
+            # key is nevertheless part of the PDU (the encoder emits
+            # it), and the table struct parameters which use this key
+            # need to know the row.
+            odxrequire(self.table.key_dop).decode_from_pdu(decode_state)
+
             phys_val = self.table_row.short_name
+            decode_state.table_keys[self.short_name] = self.table_row
         else:
             # Use DOP to decode
             key_dop = odxrequire(self.table.key_dop)
